@@ -37,6 +37,7 @@ type bOp struct {
 }
 
 type c19Replay struct {
+	Kind string `json:"kind,omitempty"`
 	Init []byte `json:"init"`
 	Cap  int    `json:"cap"`
 	Nil  bool   `json:"nil,omitempty"`
@@ -870,6 +871,7 @@ func runC19(r *Run) {
 		tr, ops := c19Lockstep(st.init, st.capacity, st.isNil, st.str, nil, n, func(b bufAPI) bOp { return c19GenOp(g, b, small) })
 		c19Record(r, st, ops, tr, "random", cmpcap, i < ascases)
 	}
+	c19LiveEncoder(r)
 }
 
 // c19LockstepFull resolves the placeholder count -7 of WriteTo ("the writer
@@ -890,6 +892,11 @@ func replayC19(r *Run, file string) {
 	var in c19Replay
 	loadReplay(file, &in)
 	r.Coq("Require Import Verif.Model.Base Verif.Model.Utf8 Verif.Model.Buffer Verif.Corr.C19.", "case", "ok")
+	if in.Kind == "live-encoder" { // a finding of the live-encoder scenario (c19_live.go): run it again
+		c19LiveEncoder(r)
+		finishReplay(r)
+		return
+	}
 	st := c19Start{init: in.Init, capacity: in.Cap, isNil: in.Nil, str: in.Str}
 	tr, done := c19Lockstep(st.init, st.capacity, st.isNil, st.str, in.Ops, 0, nil)
 	for i, s := range tr.Steps {
